@@ -209,7 +209,13 @@ def cases(draw, backend):
     ds = dataset_text(sch, [s["md"] for s in specs])
     body = "(" + ", ".join(cols) + ("," if len(cols) == 1 else "") + ")"
     src = f"e.{acc}({bank!r})" + (f".Where(lambda j: {filt})" if filt else "")
-    if level == "object":
+    if level == "event" and scalar_specs and not expect_error and draw(st.integers(0, 3)) == 0:
+        # the value of ONE call flows on into two sibling loops of the next Select (the call has to be rendered in each, each time with a result variable of its own)
+        c0 = call(draw(st.sampled_from(scalar_specs)))
+        labels_extra.add("result-used-in-two-sibling-loops")
+        text = (f"Select({ds}, lambda e: {src}.Select(lambda j: {c0}).Select(lambda v: e.{acc}({bank!r}).Where(lambda k: k.pt() > v).Count() + "
+                f"e.{acc}({bank!r}).Where(lambda k: k.eta() > v).Count()))")
+    elif level == "object":
         text = f"Select(SelectMany({ds}, lambda e: {src}), lambda j: {body})"
     else:
         text = f"Select({ds}, lambda e: {src}.Select(lambda j: {cols[0]}))" if len(cols) == 1 else f"Select({ds}, lambda e: ({', '.join(f'{src}.Select(lambda j: {c})' for c in cols)}))"
